@@ -31,6 +31,7 @@ func init() {
 			"Afterwards: every context ended, time advanced past 247 s with ticks, tables read. non-trivial = at least one exchange ended without a normal answer; distinct = distinct event-log hash",
 		Scenarios: []Scenario{
 			{Name: "S-AUDIT/scripted", Weight: 3, Run: c13Run},
+			{Name: "S-AUDIT/ended-by-peer-or-housekeeping", Weight: 1, Run: c13EndedRun},
 			{Name: "S-AUDIT/pair-udp", Weight: 2, Run: func(e *Env) { c04RunOpt(e, TrUDP, true, true) }},
 			{Name: "S-AUDIT/pair-tcp", Weight: 1, Run: func(e *Env) { c04RunOpt(e, TrTCP, false, true) }},
 			// the keep-alive workload of C18: its pings are exchanges too - an answered or superseded ping leaves nothing behind
@@ -41,7 +42,7 @@ func init() {
 		},
 		Quick:    150000,
 		Thorough: 2000000,
-		Require:  []string{"ping.asyncAnswered", "tick.foundInactive", "exchange.endedNormally", "exchange.endedWithError", "peer.silence", "transfer.multiBlock"},
+		Require:  []string{"ping.asyncAnswered", "tick.foundInactive", "exchange.endedNormally", "exchange.endedWithError", "peer.silence", "transfer.multiBlock", "ended.byReset", "ended.byExhaustion"},
 		Assume: []string{
 			"the audit happens after every call has returned, every context has ended and simulated time has passed the largest deadline of the run (request deadlines, 5 s block-wise timeout, 247 s exchange lifetime) with housekeeping ticks in between",
 			"observations that are still live (registered, supported, not cancelled) may stay in the observation table; nothing else may stay anywhere",
